@@ -427,6 +427,24 @@ func init() {
 					continue
 				}
 				key := a[0]
+				// a key handed over through a result variable: the one computed value it can hold (the other
+				// alternatives being constants that are not gc_worker's key, as the "" returned with an error)
+				var computed []ssa.Value
+				for _, alt := range valueAlternatives(key, 3) {
+					if _, isC := alt.(*ssa.Const); isC && !denotesGWKey(alt) {
+						continue
+					}
+					dup := false
+					for _, o := range computed {
+						dup = dup || sameVal(o, alt)
+					}
+					if !dup {
+						computed = append(computed, alt)
+					}
+				}
+				if len(computed) == 1 {
+					key = computed[0]
+				}
 				byKey := guardRel("key != gc_worker's key", "!=", same(key), denotesGWKey)
 				isGW := guardRel("ServiceID == gc_worker", "==", loadOfField(fSvcID), isConstStr(gwName))
 				notGW := guardRel("ServiceID != gc_worker", "!=", loadOfField(fSvcID), isConstStr(gwName))
